@@ -9,6 +9,7 @@ import (
 	"fmt"
 	"os"
 	"path/filepath"
+	"reflect"
 	"runtime/debug"
 	"sort"
 	"strings"
@@ -33,8 +34,9 @@ type c03Part struct {
 }
 
 type c03Attempt struct {
-	CancelAt int `json:"cancel_at"` // index into c03Cancel; 0 = never
-	Gap      int `json:"gap"`       // virtual pause after the attempt, index into c03Gap
+	CancelAt int  `json:"cancel_at"`      // index into c03Cancel; 0 = never
+	Gap      int  `json:"gap"`            // virtual pause after the attempt, index into c03Gap
+	Twin     bool `json:"twin,omitempty"` // a second client pulls the same name at the same moment
 }
 
 type c03Case struct {
@@ -133,15 +135,20 @@ func c03Gen(t *rapid.T) c03Case {
 		f.Ord = rapid.IntRange(0, 4).Draw(t, "ord")
 		f.Fault = rapid.SampledFrom(frFaultsFor[f.Kind]).Draw(t, "fault")
 		f.Arg = rapid.IntRange(0, 70000).Draw(t, "arg")
-		if f.Fault == "s401" {
+		if f.Fault == "s401" || f.Fault == "s401loop" {
 			f.Challenge = rapid.IntRange(0, len(frChallenges)-1).Draw(t, "challenge")
+		}
+		if f.Fault == "s401loop" {
+			// reaching the token endpoint needs a request that was refused with a usable challenge first
+			f.Challenge = []int{0, 1, 8}[f.Arg%3]
+			c.Faults = append(c.Faults, frFault{Kind: "manifest", Ord: f.Ord % 2, Fault: "s401", Challenge: f.Challenge})
 		}
 		c.Faults = append(c.Faults, f)
 	}
 	na := rapid.IntRange(1, 3).Draw(t, "n_attempts")
 	for i := 0; i < na; i++ {
 		c.Attempts = append(c.Attempts, c03Attempt{CancelAt: rapid.SampledFrom([]int{0, 0, 0, 1, 2, 3, 4, 5}).Draw(t, "cancel_at"),
-			Gap: rapid.IntRange(0, len(c03Gap)-1).Draw(t, "gap")})
+			Gap: rapid.IntRange(0, len(c03Gap)-1).Draw(t, "gap"), Twin: rapid.IntRange(0, 3).Draw(t, "twin") == 0})
 	}
 	return c
 }
@@ -177,11 +184,17 @@ type c03Result struct {
 }
 
 func c03Pull(name string, cancelAfter time.Duration) c03Result {
+	r, _ := c03PullTwin(name, cancelAfter, false)
+	return r
+}
+
+// c03PullTwin: with twin, a second client pulls the same name at the same moment (it never gives up): the two pulls share
+// the in-flight download of every blob; each is judged on its own.
+func c03PullTwin(name string, cancelAfter time.Duration, twin bool) (c03Result, *c03Result) {
 	var res c03Result
 	ctx, cancel := context.WithCancel(context.Background())
 	defer cancel()
-	done := make(chan struct{})
-	go func() {
+	run := func(ctx context.Context, res *c03Result, done chan struct{}) {
 		defer close(done)
 		defer func() {
 			if r := recover(); r != nil {
@@ -194,7 +207,19 @@ func c03Pull(name string, cancelAfter time.Duration) c03Result {
 				res.success = true
 			}
 		})
-	}()
+	}
+	done := make(chan struct{})
+	go run(ctx, &res, done)
+	var res2 *c03Result
+	done2 := make(chan struct{})
+	ctx2, cancel2 := context.WithCancel(context.Background())
+	defer cancel2()
+	if twin {
+		res2 = &c03Result{}
+		go run(ctx2, res2, done2)
+	} else {
+		close(done2)
+	}
 	limit := time.NewTimer(2 * time.Hour) // virtual
 	defer limit.Stop()
 	if cancelAfter > 0 {
@@ -216,8 +241,18 @@ func c03Pull(name string, cancelAfter time.Duration) c03Result {
 		}
 	}
 	cancel()
+	limit2 := time.NewTimer(2 * time.Hour) // virtual; the first timer may have fired already
+	defer limit2.Stop()
+	select {
+	case <-done2:
+	case <-limit2.C:
+		res2.hung = true
+		cancel2()
+		<-done2
+	}
+	cancel2()
 	synctest.Wait() // detached download goroutines wind down once the last waiter has gone
-	return res
+	return res, res2
 }
 
 // known findings whose class is excluded by construction while they are listed (DESIGN 2.4)
@@ -317,6 +352,7 @@ func c03Run(t *testing.T, c c03Case, rec *vfkit.Recorder) (info c03Info, err err
 		reg.log = nil
 		reg.mu.Unlock()
 
+		twinFrom := -1 // >= 0 while an attempt with two clients is judged: index of the first manifest served in it
 		check := func(r c03Result, what string, mustSucceed bool) bool {
 			if r.panicVal != nil {
 				fail("%s: the pull goroutine panicked (this kills the server): %v\n%s", what, r.panicVal, r.stack)
@@ -341,7 +377,29 @@ func c03Run(t *testing.T, c c03Case, rec *vfkit.Recorder) (info c03Info, err err
 				if len(lied) > 0 {
 					cls["success_after_manifest_with_wrong_sizes"] = true
 				}
-				if serr := frCheckStore(name, &want, lied); serr != nil {
+				serr := frCheckStore(name, &want, lied)
+				if serr != nil && twinFrom >= 0 {
+					// two clients pulled at once: each was served its own manifest (possibly different variants), the
+					// stored one is whichever was written last - any manifest served since the attempt began qualifies
+					reg.mu.Lock()
+					cands := append([]Manifest{}, reg.servedManifests[key][min(twinFrom, len(reg.servedManifests[key])):]...)
+					reg.mu.Unlock()
+					same := true
+					for i := range cands {
+						if frCheckStore(name, &cands[i], lied) == nil {
+							serr = nil
+							break
+						}
+						same = same && reflect.DeepEqual(cands[i], cands[0])
+					}
+					if serr != nil && !same {
+						// the two clients were served different manifests for one name at the same moment (one of them a
+						// fault variant): whose unused layers are whose is then undefined - counted, not judged
+						cls["obs_two_clients_served_different_manifests"] = true
+						serr = nil
+					}
+				}
+				if serr != nil {
 					fail("%s: pull reported success but %v", what, serr)
 					return false
 				}
@@ -379,9 +437,26 @@ func c03Run(t *testing.T, c c03Case, rec *vfkit.Recorder) (info c03Info, err err
 			if d > 0 {
 				cls["attempt_with_cancel"] = true
 			}
-			if !check(c03Pull(name, d), fmt.Sprintf("attempt %d", i+1), false) {
+			twinFrom = -1
+			if a.Twin {
+				reg.mu.Lock()
+				twinFrom = len(reg.servedManifests[key])
+				reg.mu.Unlock()
+			}
+			r1, r2 := c03PullTwin(name, d, a.Twin)
+			if !check(r1, fmt.Sprintf("attempt %d", i+1), false) {
 				return
 			}
+			if r2 != nil {
+				cls["two_clients_pull_at_once"] = true
+				if r1.err != nil && r2.err != nil {
+					cls["two_clients_both_fail"] = true
+				}
+				if !check(*r2, fmt.Sprintf("attempt %d, second client pulling the same name at the same moment", i+1), false) {
+					return
+				}
+			}
+			twinFrom = -1
 			time.Sleep(c03Gap[a.Gap%len(c03Gap)])
 			synctest.Wait()
 		}
@@ -431,14 +506,20 @@ func TestC03Pull(t *testing.T) {
 	rec := vfkit.Open(target)
 	defer rec.Flush()
 	var rc c03Case
-	if _, ok, err := vfkit.ReplayCase(target, &rc); ok {
+	if rp, ok, err := vfkit.ReplayCase(target, &rc); ok {
 		if err != nil {
 			t.Fatalf("replay: %v", err)
 		}
 		rec.Current(target, rc)
-		if _, err := c03Run(t, rc, nil); err != nil {
-			rec.Fail(target, rc, err.Error())
-			t.Fatalf("C03 violated: %v", err)
+		n := 1
+		if rp != nil && rp.Repeat > 1 { // cases with two clients at once depend on the schedule
+			n = rp.Repeat
+		}
+		for i := 0; i < n; i++ {
+			if _, err := c03Run(t, rc, nil); err != nil {
+				rec.Fail(target, rc, err.Error())
+				t.Fatalf("C03 violated (run %d of %d): %v", i+1, n, err)
+			}
 		}
 		return
 	}
